@@ -27,7 +27,7 @@ hooks_commits = open('/verif/tools/hook_commits.txt').read().split() if __import
 m = {
  "version": 1,
  "setup_cmd": "cd /verif/govc && PATH=/opt/veriftools/go1.26.8/bin:$PATH GOTOOLCHAIN=local GOFLAGS=-mod=mod GOPROXY=off go build -o /verif/bin/govc .",
- "hooks": {"guard": "verif", "enable": "contract files contracts_verif.go carry //go:build verif and contain only comments; govc reads their //@ lines from /repo's working tree on every run", "baseline_off_cmd": "/verif/baseline.sh", "source_commits": hooks_commits, "add_only": True},
+ "hooks": {"guard": "verif", "enable": "build tag `verif` (go build -tags=verif): contract files contracts_verif.go carry //go:build verif and contain only comments (govc reads their //@ lines from /repo's working tree on every run); the ghost client programs internal/verifh/*.go, internal/writer/ghost_verif.go and mpx/ghost_verif.go carry the same tag and are compiled only by the verifier's package load; nothing is built or run with the tag off", "baseline_off_cmd": "/verif/baseline.sh", "source_commits": hooks_commits, "add_only": True},
  "engines": [{"name": "govc", "path": "/verif/govc", "serves_properties": sorted(claimed), "kind_free_text": "self-written VC generator over go/ssa (Int-mode SMT encoding of the real code, loaded from /repo's working tree on every run); contracts as //@ comments; obligations discharged by z3 5.1.0 / z3 4.8.12 / cvc5 1.0; counterexamples replayed on the real code through go test -overlay"}],
  "checks": checks,
  "not_applicable": na,
